@@ -627,8 +627,11 @@ func ruleUnwrap() check.Rule {
 					}
 					hasError := false
 					for _, fd := range methodsOf(p, name) {
-						if fd.Name.Name == "Error" {
-							hasError = true
+						// the method of the error interface: Error() string (a result monad's `Error() error` accessor is not)
+						if fd.Name.Name == "Error" && fd.Type.Params.NumFields() == 0 && fd.Type.Results.NumFields() == 1 {
+							if b, ok := p.TypesInfo.TypeOf(fd.Type.Results.List[0].Type).Underlying().(*types.Basic); ok && b.Kind() == types.String {
+								hasError = true
+							}
 						}
 					}
 					if errField == nil || !hasError {
@@ -788,8 +791,8 @@ func C07() *check.Property {
 	return &check.Property{
 		ID:       "C07",
 		Title:    "Errors and panics surface once as an Error notification, never as a crash",
-		Patterns: cat(CorePatterns, PluginPkgs, []string{PromPkg}, RatePkgs),
-		Scope:    []string{ro},
+		Patterns: cat(CorePatterns, PluginPkgs, IOPluginPkgs, []string{PromPkg}, RatePkgs),
+		Scope:    append([]string{ro}, IOPluginPkgs...),
 		Rules:    []check.Rule{ruleUserFnContext(), ruleGoRecover(), ruleCoreRecover(), ruleErrResultUsed(), ruleUnwrap(), ruleLockPairing(), rulePanicSafeUnlock(), ruleErrorKind(), ruleLockRegion(), ruleNilGuardPolarity(), ruleNilableCallbackGuarded(), ruleSlotGuardAgreement(), ruleAccessGuarded()},
 		Explanation: "Static effect/placement check. User code can run in four kinds of places; the rules prove where each call of a user-supplied function sits (from the model's emission contexts) and that the recover points exist: " +
 			"the subscribe function runs inside a try whose handler emits Error and unsubscribes (CORE-RECOVER), observer callbacks run inside the try* helpers, library goroutines go through the recover wrapper or contain no user call (GO-RECOVER), " +
